@@ -53,6 +53,8 @@ RemoveStaged(S, t, r) ==                                          \* remove_stag
   ELSE IF \E k \in 1..Len(S.staged[si].items) : S.staged[si].items[k] \in ActiveSt THEN S
   ELSE [S EXCEPT !.staged = RemoveAt(@, si)]
 
+ItemsActive(st) == \E k \in 1..Len(st.items) : st.items[k] \in ActiveSt
+
 NewStaged(t, r, ctxin, prev, ready, retry) ==                     \* add_staged_task l.191
   [id |-> t, route |-> r, ready |-> ready, ctxin |-> IF ctxin = << >> THEN <<0>> ELSE ctxin,
    prev |-> prev, hasitems |-> FALSE, items |-> << >>, completed |-> FALSE, rof |-> FALSE,
@@ -329,8 +331,10 @@ StepEdge(d, acc, li, t, r, e, res) ==
              THEN \* merge into the entry already staged (l.1028-1040)
                   [S3 EXCEPT !.staged[si].ctxin = @ \o RemoveFirstZero(out),
                              !.staged[si].prev = Upd(@, backref, li - 1),
-                             !.staged[si].hasitems = FALSE, !.staged[si].items = << >>,
-                             !.staged[si].completed = FALSE]
+                             \* fix da1bdf7: items are kept while some item is active
+                             !.staged[si].hasitems = IF ItemsActive(S3.staged[si]) THEN @ ELSE FALSE,
+                             !.staged[si].items = IF ItemsActive(S3.staged[si]) THEN @ ELSE << >>,
+                             !.staged[si].completed = IF ItemsActive(S3.staged[si]) THEN @ ELSE FALSE]
              ELSE [S3 EXCEPT !.staged = Append(@, NewStaged(e.dst, er.route, out,
                                                             (backref :> (li - 1)), FALSE, FALSE))]
       sj  == IF si # 0 THEN si ELSE Len(S4.staged)
@@ -379,6 +383,11 @@ UTS(d, S, t, r, ev) ==
       new == TkNext(old, ActionEventName(Se, t, r, ev))
       Sf  == [Se EXCEPT !.seq[li].st = new]
   IN
+  IF si0 # 0 /\ ev.kind = "item" /\ ~Sb.staged[si0].hasitems
+  THEN \* known finding S8b: the items list was reset by a late arrival; l.899 raises KeyError after
+       \* the entry has been un-staged at l.892
+       [S |-> Sc, ret |-> "KeyError"]
+  ELSE
   IF new = "retrying"
   THEN \* l.913-927
        LET Sg == [Sf EXCEPT !.seq[li].rtally = @ + 1]
